@@ -145,6 +145,10 @@ class Case final : public sim::CaseBase {
     for (int i = 0; i < points; ++i) {
       sim::Point();
     }
+    if ((stop_kind == kNoStop || stop_kind == kSoftStop) && pool_ptr != nullptr && !pool_ptr->Alive()) {
+      // only SoftStop is ever requested in this scenario, and SoftStop stops the pool only when nothing is queued or running
+      sim::Fail("SOFTSTOP_STOPPED_BUSY_POOL", "Alive() is false inside running job %d although only SoftStop was requested", idx);
+    }
     const int child = jobs[static_cast<std::size_t>(idx)].child;
     if (child >= 0) {
       SubmitJob(child);
@@ -186,6 +190,7 @@ class Case final : public sim::CaseBase {
       tj[i].idx = static_cast<int>(i);
     }
     tjobs = &tj;
+    pool_ptr = &tp;
     yaclib_std::thread stopper;
     if (stop_kind != kNoStop) {
       stopper = yaclib_std::thread{[&] {
@@ -257,6 +262,7 @@ class Case final : public sim::CaseBase {
     }
     pool = nullptr;
     tjobs = nullptr;
+    pool_ptr = nullptr;
   }
 
   void Finish() final {
@@ -339,6 +345,7 @@ class Case final : public sim::CaseBase {
   std::vector<int> start_order;
   yaclib::FairThreadPool* pool = nullptr;
   std::vector<TJob>* tjobs = nullptr;
+  yaclib::FairThreadPool* pool_ptr = nullptr;
   std::uint64_t stop_invoke = 0, stop_return = 0, final_softstop_invoke = 0, wait_returned = 0;
   int running = 0, max_running = 0;
 };
